@@ -164,8 +164,10 @@ def run(idx: Index, rep: Report, tier: str) -> None:
         n4 += 1
         args = call.args
         pre = norm(args[3]) if len(args) > 3 else "?"
-        rep.check(pre == "trace[-1]", rule4, "_validate: state argument of the in-loop metric evaluation", val.loc(call), construct=f"state argument = {pre}", detail="" if pre == "trace[-1]" else "the cost must be evaluated in the state before the action (trace[-1] before the append)", function=val.qualname)
-        appends = [n for n, c in cfg_nodes_with_call(cfg, "append") if norm(c.func.value) == "trace" and n in body_nodes]
+        # the trace: the list whose last element is the state argument (recognised by use, not by name)
+        trace = norm(args[3].value) if len(args) > 3 and isinstance(args[3], ast.Subscript) and norm(args[3].slice) == "-1" and isinstance(args[3].value, ast.Name) else None
+        rep.check(trace is not None, rule4, "_validate: state argument of the in-loop metric evaluation", val.loc(call), construct=f"state argument = {pre}", detail="" if trace is not None else "the cost must be evaluated in the state before the action (the last element of the trace, before the append)", function=val.qualname)
+        appends = [n for n, c in cfg_nodes_with_call(cfg, "append") if trace is not None and norm(c.func.value) == trace and n in body_nodes]
         for ap in appends:
             p = cfg.path_avoiding(ap, node, {head})
             rep.check(
@@ -181,7 +183,9 @@ def run(idx: Index, rep: Report, tier: str) -> None:
         # next_state argument comes from apply_unsafe on trace[-1]
         if len(args) > 6:
             nxt = norm(args[6])
-            rep.check(nxt == "next_state", rule4, "_validate: next-state argument", val.loc(call), construct=f"next_state argument = {nxt}", function=val.qualname)
+            # the successor: a name bound to the result of applying the step's action to the last state of the trace
+            succ = {norm(a.targets[0]) for a in walk_no_nested(val.node) if isinstance(a, ast.Assign) and isinstance(a.value, ast.Call) and call_name(a.value) in ("apply_unsafe", "apply") and a.value.args and norm(a.value.args[0]) == pre}
+            rep.check(nxt in succ, rule4, "_validate: next-state argument", val.loc(call), construct=f"next_state argument = {nxt}", function=val.qualname)
     if n4 == 0:
         raise AnalysisError("anchor vanished: in-loop evaluate_quality_metric call in _validate")
     rep.count("in_loop_metric_calls", n4)
